@@ -214,18 +214,6 @@ TrHandler ==
 
 (* ---- the call returns --------------------------------------------------- *)
 OkAttrs(m) == << <<"h", m.name>>, <<"code", ToString(m.code)>> >>
-QObj(m, b) == [t |-> "o", f |-> << [k |-> "h", v |-> [t |-> "s", v |-> m.name]],
-                                   [k |-> "code", v |-> [t |-> "n", v |-> ToString(m.code)]] >>
-                                \o (IF b THEN << [k |-> "extra", v |-> [t |-> "b", v |-> "true"]] >> ELSE <<>>)]
-JArr(es) == [t |-> "a", e |-> es]
-JNum(n) == [t |-> "n", v |-> ToString(n)]
-QRespJson(m) ==      \* the JSON encoding of the value the echo query handler returns (its declared response type)
-    CASE m.ret = "QRespB"  -> QObj(m, TRUE)
-      [] m.ret = "Tup1"    -> JArr(<<QObj(m, FALSE)>>)                      \* (QResp,)
-      [] m.ret = "Tup2"    -> JArr(<<QObj(m, FALSE), JNum(m.code)>>)        \* (QResp, u64)
-      [] m.ret = "VecTup1" -> JArr(<<JArr(<<JNum(m.code)>>)>>)              \* Vec<(u64,)> with one element
-      [] m.ret = "ArrB"    -> JArr(<<QObj(m, TRUE), QObj(m, TRUE)>>)        \* [QRespB; 2]
-      [] OTHER             -> QObj(m, FALSE)
 OutcomeOk(e, m) ==
     IF m.outcome = "ok"
     THEN /\ e.verdict = "ok"
